@@ -192,6 +192,47 @@ theorem C15_pm_phrases_nonempty (arg : Bytes) : ∀ p ∈ pmDict arg, p ≠ [] :
   simp only [pmDict, List.mem_filter] at hp
   intro h; simp [h] at hp
 
+/-! ## @pmFromFile / @pmFromDataset: the same membership over the phrases of a data file / a dataset -/
+
+theorem C15_pmFromFile (data v : Bytes) : pmFromFile data v = true ↔ ∃ p ∈ pmFileDict data, FoldInfix p v := by
+  simp only [pmFromFile]
+  split
+  · rename_i hlt
+    constructor
+    · intro h; simp at h
+    · rintro ⟨p, hp, hf⟩
+      have := minPatternLen_le _ p hp
+      have := hf.length_le
+      omega
+  · simp only [acMatches, List.any_eq_true, isInfixFold_iff]
+
+theorem C15_pmFromDataset (dict : List Bytes) (v : Bytes) :
+    pmFromDataset dict v = true ↔ ∃ p ∈ dict, FoldInfix p v := by
+  simp only [pmFromDataset]
+  split
+  · rename_i hlt
+    constructor
+    · intro h; simp at h
+    · rintro ⟨p, hp, hf⟩
+      have := minPatternLen_le _ p hp
+      have := hf.length_le
+      omega
+  · simp only [acMatches, List.any_eq_true, isInfixFold_iff]
+
+/-- the phrases of a data file are its trimmed, non-empty, non-comment lines: none is empty and none keeps
+    white space around it, whatever the padding in the file (so the shortest phrase — the length
+    short-circuit — is measured on the trimmed text) -/
+theorem C15_pmFromFile_phrases (data : Bytes) : ∀ p ∈ pmFileDict data, p ≠ [] := by
+  intro p hp
+  simp only [pmFileDict, List.mem_map, List.mem_filter] at hp
+  obtain ⟨l, ⟨_, hl⟩, rfl⟩ := hp
+  intro h
+  have : l = [] := by simpa using h
+  simp [this] at hl
+
+example : pmFileDict (b!"  Nmap\t\r\n# tool\n\nsqlmap") = [b!"nmap", b!"sqlmap"] := by decide
+example : pmFromFile (b!"   nmap\t\nsqlmap-long\n") (b!"NMAP") = true := by decide
+
 /-! ## negation (rule.go:713 executeOperator): `!` is the exact complement -/
 
 def executeOperator (op : Bytes → Bool) (neg : Bool) (v : Bytes) : Bool :=
